@@ -22,7 +22,6 @@ import (
 	"context"
 	"fmt"
 	"net/netip"
-	"os"
 	"sort"
 	"strings"
 	"testing"
@@ -42,10 +41,6 @@ import (
 	cnet "github.com/projectcalico/calico/libcalico-go/lib/net"
 	"github.com/projectcalico/calico/verifkit/ev"
 )
-
-// c39KnownDisabledTerminating is the signature of the finding "a terminating pool that is also
-// administratively disabled stops masking overlapping pools" (see TestVerifC39KnownDisabledTerminating).
-const c39KnownDisabledTerminating = "c39-disabled-terminating-pool-unmasks"
 
 // Nested CIDR families: every v4 entry overlaps at least one other entry; same for v6.  All
 // satisfy the IPPool CRD validation (strictly masked, prefix length <= block size).
@@ -454,9 +449,6 @@ func c39Run(t *rapid.T, rec *ev.Recorder) {
 		}
 		return s.pools[rapid.SampledFrom(names).Draw(t, label)]
 	}
-	// VERIF_C39_ASSUME_KNOWN is a development switch equivalent to listing the finding in
-	// KNOWN_FINDINGS.json (used for the sensitivity runs).
-	knownDT := ev.Known(c39KnownDisabledTerminating) || os.Getenv("VERIF_C39_ASSUME_KNOWN") != ""
 	nOps := rapid.IntRange(4, ev.Scale(36, 70)).Draw(t, "nOps")
 	reconciles := 0
 	for i := 0; i < nOps; i++ {
@@ -489,10 +481,6 @@ func c39Run(t *rapid.T, rec *ev.Recorder) {
 				continue
 			}
 			if p.DeletionTimestamp != nil {
-				if knownDT {
-					rec.Excluded(c39KnownDisabledTerminating)
-					continue
-				}
 				classSet["disable-terminating"] = true
 			}
 			s.setDisabled(p.Name, true)
@@ -510,11 +498,7 @@ func c39Run(t *rapid.T, rec *ev.Recorder) {
 				continue
 			}
 			if p.Spec.Disabled && len(p.Finalizers) > 0 {
-				// Would become terminating while administratively disabled.
-				if knownDT {
-					rec.Excluded(c39KnownDisabledTerminating)
-					continue
-				}
+				// Becomes terminating while administratively disabled.
 				classSet["delete-disabled-with-finalizer"] = true
 			}
 			s.now += int64(rapid.IntRange(0, 1).Draw(t, "dt"))
@@ -590,9 +574,10 @@ func TestVerifC39PoolOverlap(t *testing.T) {
 	rapid.Check(t, func(t *rapid.T) { c39Run(t, rec) })
 }
 
-// TestVerifC39KnownDisabledTerminating is the deterministic confirmation of the finding
-// c39-disabled-terminating-pool-unmasks: it FAILS while the finding reproduces.
-func TestVerifC39KnownDisabledTerminating(t *testing.T) {
+// TestVerifC39RegressionDisabledTerminating is the regression test for the fixed finding
+// c39-disabled-terminating-pool-unmasks (repo commit 30b1a8c): a terminating pool that is also
+// spec.disabled must keep masking overlapping pools while it exists.
+func TestVerifC39RegressionDisabledTerminating(t *testing.T) {
 	ev.Quiet()
 	e := c39NewEnv()
 	s := e.s
@@ -607,5 +592,23 @@ func TestVerifC39KnownDisabledTerminating(t *testing.T) {
 	e.reconcileAndCheck(t, &hist)
 	s.setDisabled("p0", true)
 	hist = append(hist, "disable(p0)")
+	e.reconcileAndCheck(t, &hist)
+	if _, ok := s.pools["p0"]; !ok {
+		t.Fatalf("HARNESS-GAP: scenario no longer keeps p0 terminating")
+	}
+	// Second variant: disabled first, deleted before the controller reconciles.
+	e = c39NewEnv()
+	s = e.s
+	hist = nil
+	s.create("p0", "10.0.0.0/24", false, 0)
+	e.reconcileAndCheck(t, &hist)
+	s.blocks["b"] = &v3.IPAMBlock{ObjectMeta: metav1.ObjectMeta{Name: "b"}, Spec: v3.IPAMBlockSpec{CIDR: "10.0.0.0/26"}}
+	s.now++
+	s.create("p1", "10.0.0.0/16", false, 0)
+	e.reconcileAndCheck(t, &hist)
+	s.setDisabled("p0", true)
+	s.requestDelete("p0")
+	hist = append(hist, "disable(p0)", "delete(p0)")
+	e.reconcileAndCheck(t, &hist)
 	e.reconcileAndCheck(t, &hist)
 }
